@@ -426,6 +426,7 @@ pub fn property() -> Property {
             ],
         },
         hang_is_violation: false,
+        hang_limit_s: 0,
         probes: vec![],
     }
 }
